@@ -168,3 +168,21 @@ extern "C" void h_ascii_case(void)
 	vp_assert(l.length() == 1 && (*l)[0] == cl, "toLowerCase on ASCII is the C-locale tolower");
 	vp_reach(5);
 }
+
+// UTF-8 -> wchar_t conversion held inside the String (operator const wchar_t*, wlength()): p0 = byte length, last two bytes symbolic ASCII
+extern "C" void h_wide(void)
+{
+	int L = vp_param(0);
+	char t[40];
+	for (int i = 0; i < L; i++) t[i] = (char)('a' + i % 26);
+	for (int i = L - 2; i < L; i++) if (i >= 0) { char c = (char)nondet_u8(); vp_assume(c > 0 && c < 127); t[i] = c; }
+	t[L] = 0;
+	String s(t);
+	const wchar_t* w = s;
+	vp_assert((int)s.wlength() == L, "wlength() of ASCII text is its length");
+	for (int i = 0; i < L; i++) vp_assert(w[i] == (wchar_t)(unsigned char)t[i], "wide characters equal the scalar values");
+	vp_assert(w[L] == 0, "wide text is terminated inside its buffer");
+	vp_assert(s == t && s.length() == L, "the UTF-8 text is unchanged by the conversion");
+	vp_note(L);
+	vp_reach(7);
+}
